@@ -189,6 +189,14 @@ def check(run):
                        [(4, 0, 4), (4, -2, 3), (6, 3, 6), (6, 1, 2), (8, -4, 8), (7, 6, 7), (3, 0, 0), (12, 5, 12), (16, -3, 13), (20, 2, 20)]):
         cases.append((L, s, eM, helpers.random_weights(rng, s, eM)))
     run.attempt("corr:corr_rotH", kern.corr_rotH, run, cases, rotors if not quick else rotors[:14] + rotors[-3:], preps, poison=float("nan"))
+    # the default (matrix) route from the source: generated Wigner.D body + generated `_rotate` (left-fold contraction), numerically against the real call;
+    # calculators whose ell_min is 0, 1 or |s| (the matrix route is taken when ell_min <= max(|s|, modes' ell_min))
+    mcases = []
+    for (L, s, eM, f) in cases:
+        for emin in sorted({0, min(1, abs(s)), abs(s)}):
+            if emin <= L:
+                mcases.append((L, emin, s, eM, f))
+    run.attempt("corr:corr_rotM", kern.corr_rotM, run, mcases, rotors if not quick else rotors[:8] + rotors[-2:], preps)
     gap(run, quick)
     run.attempt("gap:shared_calculator", shared_calculator, run, quick)
     from .. import layouts
